@@ -493,7 +493,9 @@ func c12Declarations(rng *rand.Rand, systematic bool, n int) []*c12Decl {
 			mx := mx
 			presence(fmt.Sprintf("string/max%d", mx), func() *jT { return tScalar(kString).with(func(t *jT) { t.Rules = &jRules{MaxLen: pU(mx)} }) })
 		}
-		presence("string/min2-max4", func() *jT { return tScalar(kString).with(func(t *jT) { t.Rules = &jRules{MinLen: pU(2), MaxLen: pU(4)} }) })
+		presence("string/min2-max4", func() *jT {
+			return tScalar(kString).with(func(t *jT) { t.Rules = &jRules{MinLen: pU(2), MaxLen: pU(4)} })
+		})
 		presence("string/pattern", func() *jT { return tScalar(kString).with(func(t *jT) { t.Rules = &jRules{Pattern: pS("^[a-z]+$")} }) })
 		for _, sf := range rt.SortedKeys(c12FormatValues) {
 			sf := sf
@@ -539,7 +541,9 @@ func c12Declarations(rng *rand.Rand, systematic bool, n int) []*c12Decl {
 		presence("bytes/none", func() *jT { return tScalar(kBytes) })
 		presence("bytes/min1", func() *jT { return tScalar(kBytes).with(func(t *jT) { t.Rules = &jRules{BMinLen: pU(1)} }) })
 		presence("bytes/max3", func() *jT { return tScalar(kBytes).with(func(t *jT) { t.Rules = &jRules{BMaxLen: pU(3)} }) })
-		presence("bytes/min2-max4", func() *jT { return tScalar(kBytes).with(func(t *jT) { t.Rules = &jRules{BMinLen: pU(2), BMaxLen: pU(4)} }) })
+		presence("bytes/min2-max4", func() *jT {
+			return tScalar(kBytes).with(func(t *jT) { t.Rules = &jRules{BMinLen: pU(2), BMaxLen: pU(4)} })
+		})
 		presence("bool/none", func() *jT { return tScalar(kBool) })
 		presence("bool/const-true", func() *jT { return tScalar(kBool).with(func(t *jT) { t.Rules = &jRules{Const: pB(true)} }) })
 		presence("bool/const-false", func() *jT { return tScalar(kBool).with(func(t *jT) { t.Rules = &jRules{Const: pB(false)} }) })
